@@ -57,8 +57,11 @@ def run(chk):
         chk.count("pool_actions", len(log))
         for fp, msg in ld.monitor_pool(sc, log, outcome, detail, mr):
             chk.violation(fp, msg, {"kind": "monitor", "monitor": fp, "scenario": sc, "log": log[:200]})
-        items.append(ld.coq_pool_item(sc, log))
-        owners.append((sc, log))
+        if any(r[0] == "unhooked" or r[2] == -1 for r in log):
+            chk.count("pool_internals_unavailable")
+        else:
+            items.append(ld.coq_pool_item(sc, log))
+            owners.append((sc, log))
     res = common.coq_eval_sharded("c14_pool", ld.L_HEADER, items, per_file=12) if items else []
     pbad = [(o, r) for o, r in zip(owners, res) if r != "None"]
     chk.count("pool_model_agree", len(res) - len(pbad))
